@@ -733,6 +733,10 @@ func (m *lMachine) trackOrders(i int) {
 		}
 		cur, found := m.k.GetOrder(c.Ctx, o.app, cfg.Pairs[o.pair].ID, o.id)
 		if !found {
+			if m.prop == "C20" || m.prop == "C16" {
+				o.done = true // differential runs end blocks outside the machine's block operation
+				continue
+			}
 			// deleted before we saw it terminate: cannot happen with end-block observation
 			m.fail(m.prop+".order-vanished", "tracking", "step %d: order %d disappeared while live", i, o.id)
 		}
